@@ -151,8 +151,12 @@ def ev_item(it, r, env=None):
             out = out * ev_defn(a, r, env)
         return out
     if m == 'pow':
-        a, b = it['args']
-        return ev_defn(a, r, env) ** ev_defn(b, r, env)
+        # more than two arguments: "raises each potential-form to the power of the next", i.e. a left fold ((a**b)**c)**d - the reading
+        # the repository's own (sympy) test pins for three arguments and the one `reduce` in the anchored mechanism gives
+        out = ev_defn(it['args'][0], r, env)
+        for b in it['args'][1:]:
+            out = out ** ev_defn(b, r, env)
+        return out
     if m == 'trans':
         return ev_defn(it['args'][0], r + it['x'], env)
     if m == 'spline':
